@@ -2,6 +2,8 @@ import JSL.Inv.Feasible
 import JSL.Inv.TimeStep
 import JSL.Inv.RoutePass
 import JSL.Lib.StepSpec
+import JSL.Inv.StartGe
+import JSL.Inv.Stamp
 
 /-!
 # Environment-level reachability
@@ -76,6 +78,21 @@ inductive Exposed (orc : Oracle) (inst : Instance) (ec : EnvCfg) (st : RewardSta
   | micro {e a out σ} : EnvReach orc inst ec st s0 e → envStep orc inst ec st e a = .ok out → σ ∈ out.micro →
       Exposed orc inst ec st s0 σ
 
+/-- nothing starts before the episode does, along every admissible execution -/
+theorem occursA_start {cfg : SMConfig} {s0 σ : State} (hst : Start orc inst s0) (h : OccursA orc inst cfg s0 σ) :
+    StartGe s0.time σ := by
+  obtain ⟨w, _⟩ := initOKB_sound hst.init
+  exact occursA_pass (StartPass orc inst cfg w s0.time) hst (StartGe.of_rest hst.rest) (fun _ _ _ => trivial) h
+
+theorem final_start {cfg : SMConfig} {s0 s : State} (hst : Start orc inst s0) (h : OccursA orc inst cfg s0 s)
+    {a : Action} (ha : Admissible a) {fuel : Nat} {r r' : Rng} {res : SMResult} {mic : List State}
+    (hstep : smStep orc inst cfg fuel s r a = .ok (res, r', mic)) :
+    ∀ j ∈ res.state.jobs, ∀ o ∈ j.ops, o.st ≠ .idle → ∀ a, o.start = some a → s0.time ≤ a := by
+  obtain ⟨w, hI, hS⟩ := occursA_inv hst h
+  have nn := nonnegB_sound hst.samples hst.nonneg
+  obtain ⟨t, ht⟩ := ((StartPass orc inst cfg w s0.time).smStep w nn hI hS (occursA_start hst h) ha trivial hstep).2.2.1
+  exact ht.starts
+
 /-- what is known about a result the environment holds -/
 structure ResInv (orc : Oracle) (inst : Instance) (cfg : SMConfig) (s0 : State) (res : SMResult) : Prop where
   struct : StructInv inst res.state
@@ -87,6 +104,12 @@ structure ResInv (orc : Oracle) (inst : Instance) (cfg : SMConfig) (s0 : State) 
   subsAgv : ∀ σ ∈ res.subStates, AgvInv σ
   full : AgvFull inst res.state
   subsFull : ∀ σ ∈ res.subStates, AgvFull inst σ
+  /-- no recorded start lies before the start of the episode -/
+  starts : ∀ j ∈ res.state.jobs, ∀ o ∈ j.ops, o.st ≠ .idle → ∀ a, o.start = some a → s0.time ≤ a
+  /-- a successful result with every job delivered has its clock at the last end -/
+  stamp : res.success = true → isDone inst res.state = true → Stamped res.state
+  /-- while there are offers, not every job is delivered -/
+  notDone : res.possible ≠ [] → isDone inst res.state = false
   liveF : res.possible ≠ [] → OccursF orc inst cfg s0 res.state
   live : res.possible ≠ [] → OccursA orc inst cfg s0 res.state ∧ (∀ tr ∈ res.possible, OfferShaped tr)
   /-- while there are offers, nothing is due -/
@@ -106,9 +129,19 @@ theorem smStep_resInv {cfg : SMConfig} {s0 s : State} (hst : Start orc inst s0) 
   refine ⟨⟨hI, hS, fun σ hσ => (occursA_inv hst (OccursA.sub h ha hstep hσ)).2, final_dur hst h ha hstep,
       fun σ hσ => occursA_dur hst (OccursA.sub h ha hstep hσ), final_agv hst hC ha hc hstep,
       fun σ hσ => occursC_agv hst (OccursC.sub hC ha hc hstep hσ), final_full hst hF ha hadm hstep,
-      fun σ hσ => occursF_full hst (OccursF.sub hF ha hadm hstep hσ), ?_, ?_, ?_, ?_⟩,
+      fun σ hσ => occursF_full hst (OccursF.sub hF ha hadm hstep hσ), final_start hst h ha hstep, ?_, ?_, ?_, ?_, ?_, ?_⟩,
     fun σ hσ => ⟨(occursA_inv hst (OccursA.micro h ha hstep hσ)).2.1, (occursA_inv hst (OccursA.micro h ha hstep hσ)).2.2,
       occursA_dur hst (OccursA.micro h ha hstep hσ), occursF_full hst (OccursF.micro hF ha hadm hstep hσ)⟩⟩
+  · intro hsuc hd
+    rcases (smStep_spec hstep).2 with h1 | h1 | h1
+    · rw [h1.1] at hsuc; cases hsuc
+    · exact smStep_done_stamp hstep h1.2.1
+    · rw [h1.2.2.1] at hd; cases hd
+  · intro hne
+    rcases (smStep_spec hstep).2 with h1 | h1 | h1
+    · exact absurd h1.2.2.2 hne
+    · exact absurd h1.2.2.1 hne
+    · exact h1.2.2.1
   · intro hne
     rcases (smStep_spec hstep).2 with h1 | h1 | h1
     · exact absurd h1.2.2.2 hne
@@ -157,12 +190,14 @@ theorem envStep_inv {ec : EnvCfg} {st : RewardStatic} {s0 : State} (hst : Start 
     obtain ⟨⟨rew, cnt⟩, _, h⟩ := except_bind_eq_ok h
     simp at h; subst h
     have key : ResInv orc inst ec.sm s0 res' ∧ ∀ σ ∈ mic, StructInv inst σ ∧ SchedInv σ ∧ DurInv inst σ ∧ AgvFull inst σ := by
-      rcases mwStep_cases hm with ⟨o, o', rest, _, hp, e1, e2, e3, _, _, e6, _⟩ | ⟨act, hsub, hk, hs⟩
-      · simp only at e1 e2 e3 e6
+      rcases mwStep_cases hm with ⟨o, o', rest, _, hp, e1, e2, e3, _, e5, e6, _⟩ | ⟨act, hsub, hk, hs⟩
+      · simp only at e1 e2 e3 e5 e6
         have hl := hi.live (by rw [hp]; simp)
         refine ⟨⟨by rw [e1]; exact hi.struct, by rw [e1]; exact hi.sched, by rw [e2]; exact hi.subs,
           by rw [e1]; exact hi.dur, by rw [e2]; exact hi.subsDur, by rw [e1]; exact hi.agv, by rw [e2]; exact hi.subsAgv,
-          by rw [e1]; exact hi.full, by rw [e2]; exact hi.subsFull, ?_, ?_, ?_, ?_⟩, ?_⟩
+          by rw [e1]; exact hi.full, by rw [e2]; exact hi.subsFull, by rw [e1]; exact hi.starts,
+          (fun _ hd => by rw [e1, hi.notDone (by rw [hp]; simp)] at hd; cases hd),
+          (fun _ => by rw [e1]; exact hi.notDone (by rw [hp]; simp)), ?_, ?_, ?_, ?_⟩, ?_⟩
         · intro _
           rw [e1]; exact hi.liveF (by rw [hp]; simp)
         · intro _
